@@ -399,7 +399,11 @@ impl MinCostFlowSolver {
 
         for depot in self.network.depots_iter() {
             let (left_rsnode, right_rsnode) = node_to_rsnode[&TripNode::Depot(depot)];
-            let capacity = self.network.get_depot(depot).capacity_for(vehicle_type) as UpperBound;
+            // a circulation of minimal cost never sends more than total_lower_bound vehicles
+            // through the depots, so the capacity can be capped there. This keeps
+            // spawning_cost * capacity small for depots with 'unlimited' capacity (e.g. u32::MAX).
+            let capacity = (self.network.get_depot(depot).capacity_for(vehicle_type) as UpperBound)
+                .min(total_lower_bound);
 
             cost_overflow_checker = cost_overflow_checker
                 .checked_add(spawning_cost.checked_mul(capacity).unwrap())
